@@ -91,9 +91,39 @@ def _int(v, none=-1):
     return max(-INT_LIMIT, min(INT_LIMIT, v))
 
 
+_RESET = [text('delete from ' + t) for t in ('queued_files', 'queued_urls', 'url_strings', 'hostnames', 'warc_visits')]
+_SHARED = {}
+
+
+def _shared_memory_table():
+    """One in-memory table per process, emptied between histories (row ids restart at 1: the schema has no
+    AUTOINCREMENT).  Saves the DDL and statement compilation of a fresh engine; used for the short model-generated
+    histories only.  Falls back to a fresh table if the emptied table is not observably empty."""
+    t = _SHARED.get('t')
+    if t is not None:
+        try:
+            with t._session() as session:
+                for q in _RESET:
+                    session.execute(q)
+            with t._session() as session:
+                left = sum(len(list(session.execute(q))) for q in (_SQL_ROWS, _SQL_HOSTS, _SQL_FILES))
+                left += len(list(session.execute(text('select id from url_strings union all select 1 from warc_visits'))))
+            if left == 0:
+                return t
+        except Exception:
+            pass
+        try:
+            t.close()
+        except Exception:
+            pass
+    t = _SHARED['t'] = SQLiteURLTable(':memory:')
+    return t
+
+
 class Runner(object):
-    def __init__(self, strings, mode='memory'):
+    def __init__(self, strings, mode='memory', reuse=False):
         assert mode in MODES
+        self.reuse = reuse and mode in ('memory', 'wrapper')
         self.S = strings if isinstance(strings, Strings) else Strings(strings)
         self.mode = mode
         self.dir = None
@@ -107,12 +137,13 @@ class Runner(object):
 
     # ------------------------------------------------------------------ table life cycle
     def _open(self):
-        self.raw = SQLiteURLTable(self.path)
+        self.raw = _shared_memory_table() if self.reuse else SQLiteURLTable(self.path)
         self.table = URLTableHookWrapper(self.raw) if self.mode.startswith('wrapper') else self.raw
 
     def close(self):
         try:
-            self.table.close()
+            if not self.reuse:
+                self.table.close()
         finally:
             if self.dir:
                 shutil.rmtree(self.dir, ignore_errors=True)
@@ -299,10 +330,10 @@ class Runner(object):
         return self.events
 
 
-def execute(strings, history, mode):
+def execute(strings, history, mode, reuse=False):
     """-> trace dict for tlc.validate_batch: {'ev': [...], 'host': [...], plus bookkeeping}."""
     S = Strings(strings)
-    r = Runner(S, mode)
+    r = Runner(S, mode, reuse)
     ev = r.run(history)
     return {'ev': ev, 'host': S.hosts(), 'mode': mode, 'strings': S.strings}
 
